@@ -155,7 +155,12 @@ def workflow_clause(ck, r, tier):
     for attempt in range(n * 12):
         if done >= n:
             break
-        case = gen_wf.gen_case(r, rf_prob=0.7)
+        # every third workflow is forEach-heavy with creating ResourceFunctions (items aggregate inside a step)
+        if attempt % 3 == 2:
+            case = gen_wf.gen_case(r, rf_prob=0.95, p_ok=1.0, err=0.0, subs=False, p_foreach=0.85, p_skipif=0.0,
+                                   p_switch=0.0, n=r.choice([1, 2, 3]))
+        else:
+            case = gen_wf.gen_case(r, rf_prob=0.7)
         prep = wf_run.prepare_case(case)
         if prep.problems:
             continue
@@ -175,6 +180,26 @@ def workflow_clause(ck, r, tier):
             late = (lambda j, m, k, i=i: 3.0 if j == i else 0.0)
             passes.append(({str(i): "raise-before", "late": True},
                            wf_run.run_prepared(prep, faults={i: "raise-before"}, extra_latency=late)))
+        # two faults in one pass: a create answered 500 (PermFail by the Function's own contract) while
+        # another resource's call never answers (cancelled at the step time-out => Retry): PermFail is
+        # the most severe outcome present, also when both sit in one forEach step
+        posts = [i for i, (m, _) in enumerate(base["log"]) if m == "POST"]
+        pairs = [(i, j) for i in posts for j in range(len(base["log"]))
+                 if j != i and base["log"][j][1] != base["log"][i][1]]
+        r.shuffle(pairs)
+        for i, j in pairs[: (6 if tier == "quick" else 16)]:
+            obs2 = wf_run.run_prepared(prep, faults={i: 500, j: "hang"})
+            hit = {(e["method"], e["fault"]) for e in obs2["cluster"].log if e.get("fault") is not None}
+            ck.evaluated()
+            ck.count("workflow-pass:two-faults")
+            if ("POST", 500) in hit and any(f == "hang" for _, f in hit) and not obs2.get("raised") \
+                    and "overall" in obs2:
+                ck.nontriv(json.dumps(["wf2", gen_wf.to_req(case), i, j], sort_keys=True, default=str))
+                if obs2["overall"]["c"] != "permFail":
+                    ck.violate({"workflow": gen_wf.to_req(case), "faults": {str(i): 500, str(j): "hang"},
+                                "overall": obs2["overall"], "conditions": obs2["conditions"]},
+                               "a create failed permanently (HTTP 500) in this pass but the Workflow's outcome is "
+                               f"{obs2['overall']['c']}, not the most severe outcome present")
         for faults, obs in passes:
             ck.evaluated()
             ck.count("workflow-pass:" + ("faulty" if faults else "clean"))
@@ -192,6 +217,168 @@ def workflow_clause(ck, r, tier):
                 ck.violate({"workflow": gen_wf.to_req(case), "faults": faults, "conditions": obs["conditions"],
                             "overall": overall},
                            "the Workflow's outcome is less severe than one of its steps' outcomes")
+
+
+def foreach_clause(ck, r, tier):
+    """Aggregation inside a forEach step under a time-out: the items' outcomes are combined like any
+    other sequence.  A forEach over a creating ResourceFunction (one object per item); in one pass one
+    item's create is answered 500 (PermFail) while another item's call never answers (cancelled at
+    the step time-out => Retry).  The most severe outcome present is PermFail."""
+    import asyncio
+    import celpy
+    import koreo_util as ku
+    from cluster import Cluster
+    from vloop import VirtualLoop
+    from koreo.workflow.reconcile import reconcile_workflow
+
+    n = 6 if tier == "quick" else 60
+    for _ in range(n):
+        k = r.randint(2, 5)
+        items = [f"it{i}" for i in range(k)]
+        perm_item, hang_item = r.sample(items, 2)
+        hang_method = r.choice(["GET", "POST"])
+        extra_step = r.random() < 0.5
+
+        async def prepare():
+            ku.reset()
+            await ku.offer_resource_function("make-obj", {
+                "apiConfig": {"apiVersion": "agg.test/v1", "kind": "AggObj", "plural": "aggobjs",
+                              "name": "=inputs.name", "namespace": "ns"},
+                "resource": {"spec": {"v": "=inputs.name"}},
+                "return": {"name": "=inputs.name"}})
+            await ku.offer_value_function("plain", {"return": {"x": 1}})
+            steps = [{"label": "fan-out", "ref": {"kind": "ResourceFunction", "name": "make-obj"},
+                      "forEach": {"itemIn": "=" + json.dumps(items), "inputKey": "name"},
+                      "condition": {"type": "FanOut", "name": "fan out"}}]
+            if extra_step:
+                steps.insert(0, {"label": "first-step", "ref": {"kind": "ValueFunction", "name": "plain"}})
+            return await ku.offer_workflow("agg-foreach", {"steps": steps})
+
+        wf = ku.run(prepare())
+        cl = Cluster()
+
+        def fault_for(i, method, key):
+            return None
+
+        class C(Cluster):
+            async def _begin(self, method, key, namespace, body):
+                name = key[3]
+                idx = self.calls
+                if method == "POST" and name == perm_item:
+                    self.faults[idx] = 500
+                elif name == hang_item and method == hang_method:
+                    self.faults[idx] = "hang"
+                return await super()._begin(method, key, namespace, body)
+
+        cl = C()
+        loop = VirtualLoop()
+        try:
+            asyncio.set_event_loop(loop)
+            res = loop.run_until_complete(reconcile_workflow(
+                api=cl, workflow_key="agg-foreach", owner=("ns", dict(ku.OWNER_REF)),
+                trigger=celpy.json_to_cel({}), workflow=wf))
+        except BaseException as e:  # escaping exceptions are C09's subject
+            ck.count("foreach-timeout:raised")
+            continue
+        finally:
+            try:
+                for t in asyncio.all_tasks(loop):
+                    t.cancel()
+                loop.run_until_complete(asyncio.sleep(0))
+            except BaseException:
+                pass
+            asyncio.set_event_loop(None)
+            loop.close()
+        ck.evaluated()
+        ck.count("foreach-timeout-pass")
+        hit = {(e["method"], e["fault"]) for e in cl.log if e.get("fault") is not None}
+        if ("POST", 500) not in hit or not any(f == "hang" for _, f in hit):
+            continue
+        overall = ku.outcome_class(res.result)
+        case = {"items": items, "permanently_failing_item": perm_item, "hanging_item": hang_item,
+                "hanging_call": hang_method, "extra_step": extra_step, "overall": ku.outcome_obs(res.result)}
+        ck.nontriv(json.dumps(["foreach-timeout", items, perm_item, hang_item, hang_method, extra_step]))
+        if overall != "permFail":
+            ck.violate(case, f"an item of the forEach step failed permanently (create answered 500) but the Workflow's "
+                             f"outcome is {overall}: the items' outcomes were not combined to the most severe one")
+
+
+def prepare_clause(ck, r, tier):
+    """The aggregation sites at prepare time (workflow/prepare.py: refSwitch cases, steps): the readiness
+    of a refSwitch with several cases, and of a Workflow with several steps, must be the combination of
+    the individual readiness outcomes — most severe class, longest Retry delay, every message of the
+    winning class, whatever the order of cases/steps.  Individual outcomes are measured by preparing
+    each case/step alone through the real prepare_workflow."""
+    import koreo_util as ku
+    from koreo import result
+    from koreo.workflow.prepare import prepare_workflow
+
+    pool = [
+        {"kind": "ValueFunction", "name": "good-vf"},
+        {"kind": "ValueFunction", "name": "missing-vf"},
+        {"kind": "ValueFunction", "name": "broken-vf"},
+        {"kind": "ResourceFunction", "name": "missing-rf"},
+        {"kind": "ResourceFunction", "name": "broken-rf"},
+        {"kind": "Workflow", "name": "missing-wf"},
+        {"kind": "ValueFunction", "name": "other-good-vf"},
+    ]
+
+    def ready_obs(res):
+        if not isinstance(res, tuple):
+            return {"prepare": ku.outcome_obs(res)}
+        sr = res[0].steps_ready
+        if isinstance(sr, result.Ok) or ku.outcome_class(sr) == "ok":
+            return {"c": "ok"}
+        o = ku.outcome_obs(sr)
+        return {"c": o["c"], "d": o.get("delay"), "m": o.get("msg") or ""}
+
+    async def body():
+        ku.reset()
+        await ku.offer_value_function("good-vf", {"return": {"a": 1}})
+        await ku.offer_value_function("other-good-vf", {"return": {"b": 2}})
+        await ku.offer_value_function("broken-vf", {"return": {"a": "=1 +"}})
+        await ku.offer_resource_function("broken-rf", {"apiConfig": {"apiVersion": "v1", "kind": "ConfigMap",
+                                                                       "name": "=1 +", "namespace": "ns"}})
+        n = 40 if tier == "quick" else 600
+        for _ in range(n):
+            k = r.randint(2, 5)
+            refs = [r.choice(pool) for _ in range(k)]
+            mode = r.choice(["switch", "steps"])
+
+            def spec_for(rs):
+                if mode == "switch":
+                    cases = [{"case": f"c{i}", **ref} for i, ref in enumerate(rs)]
+                    return {"steps": [{"label": "sw-step", "refSwitch": {"switchOn": "=parent.kind", "cases": cases}}]}
+                return {"steps": [{"label": f"step-{i}", "ref": ref} for i, ref in enumerate(rs)]}
+
+            singles = [ready_obs(await prepare_workflow("agg-wf", spec_for([ref]))) for ref in refs]
+            combined = ready_obs(await prepare_workflow("agg-wf", spec_for(refs)))
+            perm = list(refs)
+            r.shuffle(perm)
+            combined_p = ready_obs(await prepare_workflow("agg-wf", spec_for(perm)))
+            ck.evaluated()
+            ck.count(f"prepare-aggregation:{mode}")
+            if any("prepare" in x for x in singles + [combined, combined_p]):
+                continue  # the definition itself was rejected: not an aggregation
+            rank = {"ok": 2, "skip": 1, "depSkip": 0, "retry": 3, "permFail": 4}
+            top = max(singles, key=lambda x: rank[x["c"]])["c"]
+            winners = [x for x in singles if x["c"] == top]
+            if len({x["c"] for x in singles}) > 1 or len(winners) > 1:
+                ck.nontriv(json.dumps(["prep", mode, refs], sort_keys=True))
+            case = {"mode": mode, "refs": refs, "singles": singles, "combined": combined}
+            bad = None
+            if combined["c"] != top:
+                bad = f"readiness class {combined['c']} but the most severe individual readiness is {top}"
+            elif top == "retry" and combined.get("d") != max(x["d"] for x in winners):
+                bad = f"readiness delay {combined.get('d')} is not the longest individual delay"
+            elif top in ("retry", "permFail") and any(x["m"] and x["m"] not in combined["m"] for x in winners):
+                bad = "a message of the winning class is missing from the combined readiness"
+            elif combined_p["c"] != combined["c"] or combined_p.get("d") != combined.get("d"):
+                bad = "readiness class/delay depends on the order of cases/steps"
+            if bad:
+                ck.violate(case, bad)
+
+    ku.run(body())
 
 
 def run(tier: str) -> int:
@@ -289,6 +476,14 @@ def run(tier: str) -> int:
         workflow_clause(ck, r, tier)
     except Exception as e:  # the workflow harness belongs to C01/C02/C09; its trouble is not a C03 verdict
         ck.notes.append(f"workflow clause not exercised: {e!r}")
+    try:
+        foreach_clause(ck, r, tier)
+    except Exception as e:
+        ck.notes.append(f"forEach time-out aggregation clause not exercised: {e!r}")
+    try:
+        prepare_clause(ck, r, tier)
+    except Exception as e:
+        ck.notes.append(f"prepare-time aggregation clause not exercised: {e!r}")
 
     return ck.finish(
         rule="random outcome sequences (length 0-12, all five classes, None/empty/non-empty messages and "
